@@ -292,6 +292,8 @@ class Engine:
         self.ghost_at = {}
         self.attr_hooks = {}
         self.filters = {}
+        self.stmt_ghosts = False
+        self.format_hooks = {}
         self.heap = {}            # global ghost state (object heaps) visible to code hooks and to every spec
         from . import builtins as B
         B.install(self)
@@ -1147,7 +1149,21 @@ class Engine:
     # ------------------------------------------------------------------ statements
     def exec_block(self, stmts, env):
         for s in stmts:
+            if self.stmt_ghosts:
+                self._stmt_ghost('before:stmt:', s, env)
             self.exec(s, env)
+            if self.stmt_ghosts:
+                self._stmt_ghost('after:stmt:', s, env)
+
+    def _stmt_ghost(self, prefix, st, env):
+        """ghost code attached to a statement, located by the beginning of its source text (never by line number)"""
+        src = None
+        for key, code in self.ghost_at.items():
+            if key.startswith(prefix):
+                if src is None:
+                    src = ' '.join(ast.unparse(st).split())
+                if src.startswith(' '.join(key[len(prefix):].split())):
+                    self.exec_src(code, env)
 
     def exec(self, node, env):
         self.line = getattr(node, 'lineno', self.line)
